@@ -10,6 +10,7 @@ from hypothesis import strategies as st
 from vf import gen_args
 
 NAMES = ["server", "add", "remote", "push", "list", "cfg", "deploy"]
+MORE_NAMES = ["fetch", "merge", "status", "branch", "clone", "init", "tag9", "grep", "blame", "stash", "prune", "bisect"]
 ALIASES = ["srv", "ad2", "rmt", "psh", "ls1", "cf9", "dpl", "zz1", "yy2", "ww3"]
 LONGS = ["foo", "bar", "baz-x", "opt1", "qux", "num", "k2", "mode", "level", "dry-run"]
 SHORTS = list("fbxokFBXze")
@@ -49,7 +50,7 @@ DESCS = [None, "short text", "forty words " + " ".join("word%d" % i for i in ran
 
 
 @st.composite
-def tree_st(draw, max_depth=3, max_fanout=3, typed=False, descriptions=False, min_top=1):
+def tree_st(draw, max_depth=3, max_fanout=3, typed=False, descriptions=False, min_top=1, unique_names=False):
     longs = list(draw(st.permutations(LONGS)))
     shorts = list(draw(st.permutations(SHORTS)))
     argnames = list(draw(st.permutations(ARGNAMES)))
@@ -100,17 +101,29 @@ def tree_st(draw, max_depth=3, max_fanout=3, typed=False, descriptions=False, mi
         subs = []
         if depth < max_depth:
             n = draw(st.integers(0, max_fanout if depth == 1 else 2))
-            sub_names = list(draw(st.permutations(NAMES)))
-            sub_aliases = list(draw(st.permutations(ALIASES)))
+            if unique_names:
+                sub_names, sub_aliases = names, aliases_pool
+            else:
+                sub_names = list(draw(st.permutations(NAMES)))
+                sub_aliases = list(draw(st.permutations(ALIASES)))
             for _ in range(n):
+                if not sub_names:
+                    break
                 subs.append(make(depth + 1, (has_multi, has_optional), sub_names, sub_aliases))
-        return {"name": name, "aliases": aliases, "kind": kind, "opts": opts, "args": args,
-                "desc": (draw(st.sampled_from(DESCS)) if descriptions else "d"), "subs": subs}
+        cmd = {"name": name, "aliases": aliases, "kind": kind, "opts": opts, "args": args,
+               "desc": (draw(st.sampled_from(DESCS)) if descriptions else "d"), "subs": subs}
+        if descriptions and draw(st.integers(0, 3)) == 0:
+            cmd["help"] = "Help of {command_name} in {script_name}.\nSecond paragraph with some more words to wrap around."
+        return cmd
 
     n_top = draw(st.integers(min_top, max_fanout))
-    names = list(draw(st.permutations(NAMES)))
+    names = list(draw(st.permutations(NAMES + (MORE_NAMES if unique_names else []))))
     aliases_pool = list(draw(st.permutations(ALIASES)))
-    return {"commands": [make(1, (False, False), names, aliases_pool) for _ in range(n_top)]}
+    top = []
+    for _ in range(n_top):
+        if names:
+            top.append(make(1, (False, False), names, aliases_pool))
+    return {"commands": top}
 
 
 # ------------------------------------------------------------------------------------- building
